@@ -22,12 +22,14 @@
        compression layer: poisoned, state Empty, after an inner I/O or decompression error)
        nothing is claimed — and nothing can be: ComposeForgets.comp_strict_refuted.
    Part 4: the stack instance. *)
+From MLA Require Import Limit.
 From MLA Require Import Base Stream EncLayer CompLayer RawLayer LayerStack Blocks Reader Inst Run HistProofs ComposeForgets.
 From MLAGen Require Src.
 From Coq Require Import ZifyBool ZifyNat ZifyN.
 Open Scope N_scope.
 
 Section Resp.
+  Context {LIM : Limit}.
   Variable S : Stream.
   Variable X : st S -> st S -> Prop.
   Hypothesis HB : Bisim S X.
@@ -246,6 +248,7 @@ End Resp.
 
 (* ---------- operations that begin with an absolute seek ---------- *)
 Section HistE.
+  Context {LIM : Limit}.
   Variable k : consts.
   Variable S : Stream.
   Variables St X : st S -> st S -> Prop.
@@ -441,6 +444,7 @@ End HistE.
 
 (* ---------- the compression layer: what a FAILED absolute seek leaves ---------- *)
 Section CompFail.
+  Context {LIM : Limit}.
   Variable BLOCK : N.
   Variable dec : bytes -> bytes.
   Variable T : Stream.
@@ -485,6 +489,7 @@ End CompFail.
 
 (* ---------- Part 4: compression over encryption over raw over a source ---------- *)
 Section StackHist.
+  Context {LIM : Limit}.
   Variable k : consts.
   Variables CHUNK TAG BLOCK : N.
   Variable ks : N -> N -> N.
